@@ -75,7 +75,13 @@ def proj(conn):
     s = conn.session
     # what governs reuse is Session.valid() (handshakeClient* offers a session iff it is valid); the flag alone is
     # not the whole story for sessions that hold tickets
-    return bool(conn.closed), ("none" if s is None else ("resumable" if (s.resumable or s.valid()) else "dead"))
+    st = "none" if s is None else ("resumable" if (s.resumable or s.valid()) else "dead")
+    # a resumed connection: the session the application (client) or the session cache (server) holds is the one that
+    # would be offered / accepted again - it counts as much as the connection's own reference
+    for o in getattr(conn, "_verif_origin_sessions", lambda: [])():
+        if st == "dead" and o is not None and (o.resumable or o.valid()):
+            st = "resumable"
+    return bool(conn.closed), st
 
 
 def call_event(api, envname, out, conn, arrive=0, n=0, wantdesc=0, match=True):
@@ -156,10 +162,27 @@ def data_history(job):
             f = flavour(ver, kex, tickets13=1)
         elif idx % 2 == 0 and ver == 3:
             f = flavour(ver, kex, ticket=True)
+        elif idx % 4 == 1 and ver < 4 and pre != "reuse":
+            # the connection under test is a session-ID resumption
+            f = flavour(ver, kex, resume="id")
         else:
             f = flavour(ver, kex)
         sc = Scenario(f, "c17d-%d" % idx)
         p = sc.pair
+        if f["resume"] == "id" and sc.prep_ok:
+            def _origin(conn, sc=sc):
+                if conn is sc.pair.c:
+                    return [sc.session]
+                out = []
+                sid = bytes(conn.session.sessionID) if conn.session is not None and conn.session.sessionID else None
+                if sid is not None and sc.cache is not None:
+                    try:
+                        out.append(sc.cache.entriesDict.get(sid))
+                    except Exception:
+                        pass
+                return out
+            p.c._verif_origin_sessions = lambda: _origin(p.c)
+            p.s._verif_origin_sessions = lambda: _origin(p.s)
         cgen, sgen = sc.gens()
         st, co, so = p.run(cgen, sgen)
         eut, peer = (p.c, p.s) if role == "c" else (p.s, p.c)
